@@ -207,27 +207,20 @@ type regFlags struct {
 	OptSubStatus bool `json:"optSubStatus"`
 }
 
-// mainStrategyFlags reads `subStatus` of the registry.DefaultRESTStrategy inside a store's strategy.
+// mainStrategyFlags finds out BEHAVIOURALLY whether a strategy's creation path is the one of a main strategy built
+// with subStatus=true: its PrepareForCreate is run on a probe object with a non-empty status (the strategies work
+// on any runtime.Object with ObjectMeta/Spec/Status) and the status is cleared or not. No unexported field is read,
+// so the representation of the flag is free.
 func mainStrategyFlags(strategy interface{}) (subStatus bool, err error) {
-	v := reflect.ValueOf(strategy)
-	for i := 0; i < 3; i++ {
-		if v.Kind() == reflect.Interface || v.Kind() == reflect.Ptr {
-			v = v.Elem()
-		}
-		if v.Kind() == reflect.Struct && v.Type().Name() == "DefaultStatusRESTStrategy" {
-			v = v.Field(0)
-			continue
-		}
-		break
+	cs, ok := strategy.(rest.RESTCreateStrategy)
+	if !ok {
+		return false, fmt.Errorf("strategy %T has no PrepareForCreate", strategy)
 	}
-	if v.Kind() != reflect.Struct || v.Type().Name() != "DefaultRESTStrategy" {
-		return false, fmt.Errorf("strategy is a %T, not registry.DefaultRESTStrategy", strategy)
+	probe := &Widget{Status: WidgetStatus{Phase: "probe"}}
+	if msg, panicked := rig.Recover(func() { cs.PrepareForCreate(context.Background(), probe) }); panicked {
+		return false, fmt.Errorf("PrepareForCreate of %T panicked on the probe object: %s", strategy, msg)
 	}
-	f := v.FieldByName("subStatus")
-	if !f.IsValid() || f.Kind() != reflect.Bool {
-		return false, fmt.Errorf("registry.DefaultRESTStrategy has no bool field subStatus any more")
-	}
-	return f.Bool(), nil
+	return probe.Status.Phase == "", nil
 }
 
 func (s *Served) flags() (regFlags, error) {
@@ -456,6 +449,27 @@ func (h *H) eval(cs Case) *rig.Failure {
 				continue
 			}
 			endpoint, endpointREST = s.Status, s.StatusREST()
+		}
+		if old == nil && st.Op != "create" && !endpoint.UpdateStrategy.AllowCreateOnUpdate() {
+			// the endpoint's update strategy does not create on update: NotFound, nothing is stored; the model takes
+			// the same answer from the regenerated constant
+			pre, _ := s.decode(st.Submitted)
+			if pre == nil {
+				return fail("diff", "c20.bad-case", "submitted document does not decode", nil)
+			}
+			var err2 error
+			rig.Recover(func() {
+				_, _, err2 = endpointREST.(rest.Updater).Update(ctx, name, rest.DefaultUpdatedObjectInfo(pre), rest.ValidateAllObjectFunc, rest.ValidateAllObjectUpdateFunc, false, &metav1.UpdateOptions{})
+			})
+			var m struct{ Rej string }
+			if merr := c.Model("C20.op", h.modelArgs(st, fl, zeroDeep, nil, oldDeep, deepGroups(pre)), &m); merr != nil {
+				return fail("diff", "c20.model-error", merr.Error(), nil)
+			}
+			if _, now := s.Mem.Raw(key); err2 == nil || now || m.Rej != "notServed" {
+				return fail("diff", "c20.create-on-update", fmt.Sprintf("step %d (%s on %s): the update strategy says AllowCreateOnUpdate()=false for a missing object: store error=%q, object stored now=%v, model answer %q", i, st.Op, s.Name, errClass(err2), now, m.Rej), m)
+			}
+			h.obs["step:"+st.Op+":missing-object-not-created"]++
+			continue
 		}
 		// ---- L1: BeforeCreate / BeforeUpdate with the endpoint's strategy
 		obj, err := s.decode(st.Submitted)
